@@ -187,7 +187,7 @@ def run_source(src, ctx, tag, what, files=None):
 
 
 def cases(tier):
-    return 3200 if tier == "quick" else 400000
+    return 3200 if tier == "quick" else 160000
 
 
 def strategy(hazards):
